@@ -6,7 +6,7 @@ here = os.path.dirname(os.path.abspath(__file__))
 S = "deterministic simulation with fault injection: real scheduler/runner code on baton-passing threads under a seeded kernel with a simulated OS; seeded search over schedules and fault sequences; invariants per step + oracles over the recorded history; shrunk replay files"
 CHECKS = {
  "C04": ("S", "no simulated launch (Popen) of a job while an upstream named by the workload lacks its success marker; upstream embedded in all 8 documented ways plus a pre-task attached to another upstream's output wrapper; 1-2 schedulers; interleavings of exits, helper threads, loop inbox, fs events chosen by the kernel PRNG"),
- "C05": ("S", "duplicate submissions at any plan position return the first output and register nothing; no launch by an experiment entered after the marker; body intervals per identifier never overlap and no body starts after a successfully completed one (nor with the marker present); 1-3 concurrent schedulers with line-level pre-emption"),
+ "C05": ("S", "(also from a second user thread of the same process submitting concurrently: one accepted job, one output object; known finding K05) duplicate submissions at any plan position return the first output and register nothing; no launch by an experiment entered after the marker; body intervals per identifier never overlap and no body starts after a successfully completed one (nor with the marker present); 1-3 concurrent schedulers with line-level pre-emption"),
  "C06": ("S", "finished states absorbing (every assignment to Job.state monitored), wait() value final and truthful, no caller parked at quiescence (exact deadlock detection), experiment wait never early, unfinishedJobs == 0; DAGs with 0-2 tokens, failures, re-submission (after wait() or as soon as the caller sees a final state), and histories run / jobs clean (real CLI) / run again with attempt-dependent outcomes"),
  "C07": ("S", "reference model of failure propagation over the workload DAG vs. observed launches, final states and FailedExperiment on exit; failures by exit code, exception, SIGKILL/SIGTERM/SIGINT of the job; two-run histories where the first run is killed and the second adopts running processes (which may then be killed); at quiescence no job with an ancestor that ended in error may still be non-final"),
  "C08": ("S", "after every kernel step: sum of requests of running bodies <= total and sum of counts in token files <= total, per token; 1-3 scheduler processes on one token directory, line-level pre-emption inside acquire/release/_update; sub-profile with disjoint jobs of 2-3 schedulers on one small token; slow threads/processes (stall faults, directed at a process that has just lost a record lock to another of its threads) and late wake-ups of foreign-process waits"),
